@@ -100,7 +100,7 @@ func (e *Engine) callStatic(fr *Frame, st *State, fn *ssa.Function, args []SV, r
 			return h(e, fr, st, fn, args, resT, pos)
 		}
 	}
-	if c, ok := e.db.Funcs[key]; ok && !c.Inline {
+	if c, ok := e.db.Funcs[key]; ok && !c.Inline && !(c.IntOnly && e.ar.mode == ModeBV) {
 		return e.applyContract(fr, st, fn, c, args, resT, pos)
 	}
 	if len(fn.Blocks) == 0 {
@@ -206,14 +206,17 @@ func (e *Engine) applyContract(fr *Frame, st *State, fn *ssa.Function, c *Contra
 	}
 	env := e.contractEnv(c, fn, args, st)
 	// preconditions
+	preAll := "true"
 	for i, r := range c.Requires {
 		t, err := e.tryEvalBool(env, r.Expr)
 		if err != nil {
 			panic(engErr(fmt.Sprintf("%s: cannot translate precondition %q of %s: %v", e.posStr(pos), r.Text, c.Key, err)))
 		}
 		e.vc.oblige(fmt.Sprintf("%s:pre%d", cname, i+1), st.pc, t, fmt.Sprintf("precondition %q of %s at %s", r.Text, c.Key, e.posStr(pos)))
-		e.vc.assume(st.pc, t)
+		preAll = and(preAll, t)
 	}
+	// the callee's postcondition is available only where its precondition held
+	preAll = e.vc.define("pre", "Bool", preAll)
 	pre := st.clone()
 	// frame: havoc the modifies set
 	for _, m := range c.Modifies {
@@ -239,7 +242,7 @@ func (e *Engine) applyContract(fr *Frame, st *State, fn *ssa.Function, c *Contra
 			e.vc.note(fmt.Sprintf("postcondition %q of %s not usable here (%v); dropped from assumptions", q.Text, c.Key, err))
 			continue
 		}
-		e.vc.assume(st.pc, t)
+		e.vc.assume(st.pc, implies(preAll, t))
 	}
 	if c.MayPanic {
 		// the callee may not return; nothing further to assume
@@ -255,8 +258,10 @@ func (e *Engine) tryEvalBool(env *Env, x ast.Expr) (t string, err error) {
 				err = v
 			case engErr:
 				err = v
+			case error:
+				err = fmt.Errorf("internal: %v (%s)", v, shortStack())
 			default:
-				panic(r)
+				err = fmt.Errorf("internal: %v (%s)", v, shortStack())
 			}
 		}
 	}()
@@ -563,14 +568,16 @@ func (e *Engine) applyIfaceContract(fr *Frame, st *State, c *Contract, m *types.
 			env.vars[c.ParamNames[j]] = TV{V: args[j], T: sig.Params().At(j).Type()}
 		}
 	}
+	preAll := "true"
 	for i, r := range c.Requires {
 		t, err := e.tryEvalBool(env, r.Expr)
 		if err != nil {
 			panic(engErr(fmt.Sprintf("cannot translate precondition %q of %s: %v", r.Text, c.Key, err)))
 		}
 		e.vc.oblige(fmt.Sprintf("%s:pre%d", cname, i+1), st.pc, t, "precondition "+r.Text)
-		e.vc.assume(st.pc, t)
+		preAll = and(preAll, t)
 	}
+	preAll = e.vc.define("pre", "Bool", preAll)
 	pre := st.clone()
 	for _, mm := range c.Modifies {
 		e.havocModifies(fr, st, env, mm, cname)
@@ -591,7 +598,7 @@ func (e *Engine) applyIfaceContract(fr *Frame, st *State, c *Contract, m *types.
 			e.vc.note(fmt.Sprintf("postcondition %q of %s not usable here (%v)", q.Text, c.Key, err))
 			continue
 		}
-		e.vc.assume(st.pc, t)
+		e.vc.assume(st.pc, implies(preAll, t))
 	}
 	return rv
 }
